@@ -17,3 +17,5 @@ mod h_roundtrip;
 mod h_packet;
 #[cfg(kani)]
 mod h_extdef;
+#[cfg(kani)]
+mod h_vxlib;
